@@ -115,8 +115,7 @@ Init ==
     /\ connNames = <<>> /\ rocks = <<>> /\ rockDict = <<>>
     /\ last = [op |-> "init"]
 
-AddRocktype(r) ==
-    /\ r \in DOMAIN rockDict => r \notin UsedRocks          \* domain: replacing only an unused one
+AddRocktype(r) ==          \* a rock type of a name already registered replaces that one (blocks refer to rock types by name here)
     /\ LET id == NewBlockId(RockIds) IN
        /\ rocks' = IF r \in DOMAIN rockDict
                    THEN [rocks EXCEPT ![IndexOfId(rocks, rockDict[r])] = [id |-> id, name |-> r]]
@@ -181,6 +180,17 @@ AddConnection(a, b, k) ==
                           IF x \in {blockDict[a], blockDict[b]} THEN connNames[x] \cup {<<a, b>>} ELSE connNames[x]]
     /\ UNCHANGED <<blocks, blockDict, rocks, rockDict>>
     /\ last' = [op |-> "add_connection", a |-> a, b |-> b, k |-> k]
+
+(* add_connection under a name pair that is already there: the new connection takes the old one's place in the list *)
+ReplaceConnection(a, b, k) ==
+    /\ <<a, b>> \in DOMAIN connDict
+    /\ LET id == NewBlockId(ConnIds)
+           i == IndexOfId(conns, connDict[<<a, b>>]) IN
+       /\ conns' = [conns EXCEPT ![i] = [id |-> id, b1 |-> blockDict[a], b2 |-> blockDict[b], d1 |-> 2 * id - 1, d2 |-> 2 * id,
+                                          area |-> id, dir |-> KindDir(k), cos |-> KindCos(k)]]
+       /\ connDict' = [connDict EXCEPT ![<<a, b>>] = id]
+    /\ UNCHANGED <<blocks, blockDict, connNames, rocks, rockDict>>
+    /\ last' = [op |-> "replace_connection", a |-> a, b |-> b, k |-> k]
 
 DeleteConnection(a, b) ==
     /\ <<a, b>> \in DOMAIN connDict
